@@ -88,6 +88,8 @@ def run_spec(job):
         # prefer ok paths for witnesses (reachability of the assertions), then the rest
         for i in sorted(order, key=lambda i: 0 if paths[i].kind == 'ok' else 1)[:witness_budget]:
             witness_idx.add(i)
+        ok_idx = [i for i in order if paths[i].kind == 'ok']
+        exit_idx = set(ok_idx if tier == 'thorough' else ok_idx[:opts.get('then_exit_per_spec', 6)])
         for pi, p in enumerate(paths):
             res['paths'][p.kind] += 1
             if p.kind == 'oob':
@@ -123,6 +125,40 @@ def run_spec(job):
                         except Exception as e:
                             v.update(reproduced=False, diffs=['replay failed: %r' % (e,)], scenario=None)
                         res['violations'].append(v)
+            # ---- composed step: after the accepted request, every order still on the book can be cancelled / expired (C06's quantifier, literally)
+            if opts.get('extra') == 'then_exit' and p.kind == 'ok' and pi in exit_idx:
+                for kind2 in ('CancelAsk', 'ExpireAsk', 'CancelBid', 'ExpireBid'):
+                    spec2 = ST.default_spec(kind2)
+                    for fol, req2, p2 in ST.run_second(sc, p, spec2, PX='req2'):
+                        res['paths']['then:' + p2.kind] += 1
+                        if p2.kind == 'oob':
+                            continue
+                        for ob in P.c06(fol, req2, p2):
+                            name = 'C06:after_step_' + ob.name
+                            r, m = dec.check(list(p2.pc) + env + ob.neg, name)
+                            res['obligations'][(name, r)] += 1
+                            if r == 'unknown':
+                                res['unknown'].append({'obligation': name, 'spec': res['spec'], 'path': p2.kind})
+                            if r == 'sat':
+                                ob.info['first'] = spec['kind']
+                                sig = finding_signature('C06', ob, kind2)
+                                sig['obligation'] = 'after_step_' + ob.name
+                                sig['info']['first'] = spec['kind']
+                                if any(v['signature'] == sig for v in res['violations']):
+                                    continue
+                                v = {'signature': sig, 'spec': res['spec'], 'path': p2.kind, 'detail': p2.detail}
+                                try:
+                                    scen, c = H.build_replay(sc, m, step, eng)
+                                    st2 = {'kind': 'execute', 'sender': c.term_string(req2['sender'], 'sender'), 'funds': [], 'msg': c.json(req2['msg'], eng.ti, eng.serde_rename)}
+                                    scen['steps'].append(st2)
+                                    nat = H.run_replay(scen)['steps']
+                                    pred2 = H.predicted_result(p2, c, eng)
+                                    post2 = H.storage_json(p2.world if p2.kind == 'ok' else p.world, c, eng)
+                                    diffs = H.compare_replay(H.predicted_result(p, c, eng), None, nat[0]) + H.compare_replay(pred2, post2, nat[1])
+                                    v.update(scenario=scen, native=nat[1], predicted=pred2, reproduced=not diffs, diffs=diffs)
+                                except Exception as e:
+                                    v.update(reproduced=False, diffs=['replay failed: %r' % (e,)], scenario=None)
+                                res['violations'].append(v)
             # ---- composed step: the same migration once more from the post-state (idempotence)
             if opts.get('extra') == 'idempotence' and p.kind == 'ok' and 'C14' in prop_ids:
                 from . import entry as EN
